@@ -146,6 +146,28 @@ fn c13_derive_keypair() {
     }
 }
 ''')
+# the same contract under configurations other than the stock ones: the hash / salt lengths of a Config describe
+# PwHash::hash's output, not the key pair; a derived secret key is always the 32-byte Argon2 output, with the config's costs
+for _hl, _t, _mkib in ((64, 3, 9000), (16, 5, 8192)):
+    HS["c13_derive_keypair_h%d" % _hl] = ("PwHash::derive_keypair", ("barrier", "fmt", "scalarmult_base"), A2_STUB, 70, (r"""
+fn c13_derive_keypair_h%(hl)d() {
+    use crate::pwhash::*;
+    let pw: [u8; 4] = kani::any(); let salt: [u8; 16] = kani::any();
+    let cfg = Config::interactive().with_hash_length(%(hl)d).with_salt_length(24).with_opslimit(%(t)d).with_memlimit(%(m)d * 1024);
+    let r: Result<crate::keypair::StackKeyPair, _> = VecPwHash::derive_keypair(&pw.to_vec(), salt.to_vec(), cfg);
+    kani::cover!(r.is_ok(), "derived");
+    if r.is_err() { core::mem::forget(r); assert!(false, "DERIVE_OK"); return; }
+    let kp = r.unwrap();
+    unsafe {
+        assert!(A2S.n == 1 && A2S.outlen == 32 && A2S.saltlen == 16 && A2S.pwlen == 4 && A2S.ty == 2, "DERIVE_ARGON2: a 32-byte Argon2id hash of (password, salt) with the config's costs");
+        assert!(A2S.t == %(t)d && A2S.m == %(m)d && A2S.p == 1, "DERIVE_ARGON2: costs forwarded");
+        let mut i = 0; while i < 16 { assert!(A2S.salt[i] == salt[i], "DERIVE_ARGON2: salt forwarded"); i += 1; }
+        i = 0; while i < 4 { assert!(A2S.pw[i] == pw[i], "DERIVE_ARGON2: password forwarded"); i += 1; }
+        i = 0; while i < 32 { assert!(kp.secret_key.as_slice()[i] == A2S.out[i], "DERIVE_SK: secret key = the password hash"); i += 1; }
+        assert!(AES.smb_n == 1 && &AES.smb_scalar[0][..] == kp.secret_key.as_slice() && kp.public_key.as_slice() == &AES.smb_out[0][..], "PK_IS_BASE_MULTIPLE: public key = base-point multiple of the derived secret key");
+    }
+}
+""" % dict(hl=_hl, t=_t, m=_mkib)))
 HS["c13_sk_to_curve"] = ("crypto_sign_ed25519_sk_to_curve25519", ("barrier", "fmt", "sha_update", "sha_finalize"), [], 132, r'''
 fn c13_sk_to_curve() {
     let sk: [u8; 64] = kani::any();
@@ -248,6 +270,25 @@ fn main() {
         outs = runner.native_run(scratch, "c13", main, profiles=("release",), timeout=1800)
         v["replay_input"] = {"program": main}
         return any(rc == 1 and "MISMATCH" in o for _, rc, o in outs), "; ".join("%s rc=%s %s" % (p, rc, o.strip()[-300:]) for p, rc, o in outs)
+    elif site == "PwHash::derive_keypair":
+        # expected keys from libsodium: sk = crypto_pwhash(32 bytes, argon2id13) with the config's costs, pk = base(sk)
+        cfgs = {"c13_derive_keypair_h64": (64, 3, 9000), "c13_derive_keypair_h16": (16, 5, 8192), "c13_derive_keypair": (32, 2, 65536)}
+        hl, t, mk = cfgs[h]
+        wd = v.get("witness", {})
+        pw = bytes(((wd.get("W_0") or []) + [0x70] * 4)[:4]); salt = bytes(((wd.get("W_1") or []) + [0x5A] * 16)[:16])
+        sk = ctypes.create_string_buffer(32)
+        rc = so.crypto_pwhash(sk, ctypes.c_ulonglong(32), pw, ctypes.c_ulonglong(4), salt, ctypes.c_ulonglong(t), ctypes.c_size_t(mk * 1024), 2)
+        if rc != 0:
+            return None, "libsodium crypto_pwhash failed"
+        pk = ctypes.create_string_buffer(32)
+        so.crypto_scalarmult_base(pk, sk.raw)
+        main = ("use dryoc::pwhash::*; use dryoc::types::*;\nfn main() {\n    let pw: Vec<u8> = vec!%s; let salt: Vec<u8> = vec!%s;\n"
+                "    let cfg = Config::interactive().with_hash_length(%d).with_salt_length(24).with_opslimit(%d).with_memlimit(%d * 1024);\n"
+                "    let r: Result<dryoc::keypair::StackKeyPair, _> = VecPwHash::derive_keypair(&pw, salt, cfg);\n"
+                "    let wsk: [u8; 32] = %s; let wpk: [u8; 32] = %s;\n"
+                "    match r {\n        Err(e) => { println!(\"MISMATCH derive_keypair fails under a config with hash_length %d: {:?}\", e); std::process::exit(1); }\n"
+                "        Ok(kp) => if kp.secret_key.as_slice() != &wsk[..] || kp.public_key.as_slice() != &wpk[..] { println!(\"MISMATCH derived key pair differs from libsodium's crypto_pwhash(32) + scalarmult_base (config hash_length %d)\"); std::process::exit(1); }\n    }\n"
+                "    println!(\"agree\");\n}\n") % (runner.rust_bytes(list(pw)), runner.rust_bytes(list(salt)), hl, t, mk, runner.rust_bytes(list(sk.raw)), runner.rust_bytes(list(pk.raw)), hl, hl)
     else:
         return None, "no native replay template for site %s" % site
     outs = runner.native_run(scratch, "c13", main)
